@@ -552,11 +552,37 @@ fn graph_case(n: usize, code: u32) -> Result<u64, Bad> {
     }
 }
 
+/// scale probes for graphs: a mixer with many inputs, and a long chain (deep traversal)
+fn wide_graph_case(fan_in: usize, chain: usize) -> Result<u64, Bad> {
+    let n = fan_in + chain + 1;
+    let mut g: GG = Graph::with_capacity(n, n);
+    let mix = g.add_node(NodeData::new2(BoxedNode::new(if fan_in % 2 == 0 { stock(0) } else { stock(1) })));
+    for i in 0..fan_in {
+        let s = g.add_node(NodeData::new2(stock(6 + 7 * i)));
+        g.add_edge(s, mix, ());
+    }
+    let mut last = mix;
+    for i in 0..chain {
+        let nx = g.add_node(NodeData::new2(stock(2 + (i % 2))));
+        g.add_edge(last, nx, ());
+        last = nx;
+    }
+    let mut p = Processor::<GG>::with_capacity(n);
+    p.process(&mut g, last);
+    let mut brackets = 0;
+    for call in 1..6 {
+        quiet(&format!("graph with a {fan_in}-input mixer and a chain of {chain}: process call #{call}"), || p.process(&mut g, last))?;
+        brackets += 1;
+    }
+    Ok(brackets)
+}
+
 fn replay(v: &Value) -> Option<String> {
     let r = match v["sys"].as_str().unwrap_or("") {
         "program" => program_dispatch(v["family"].as_str().unwrap_or(""), &PNode::parse(v["program"].as_str().unwrap_or(""))?).err(),
         "ring" => ring_case(v["cap"].as_u64()? as usize, v["start"].as_u64()? as usize, v["len"].as_u64()? as usize, v["kind"].as_u64()? as u8).err(),
         "graph" => graph_case(v["n"].as_u64()? as usize, v["code"].as_u64()? as u32).err(),
+        "wide_graph" => wide_graph_case(v["fan_in"].as_u64()? as usize, v["chain"].as_u64()? as usize).err(),
         "component" => component_cases().into_iter().find(|c| Some(c.0) == v["name"].as_str()).and_then(|c| (c.1)().err()),
         _ => Some(("c07".into(), "unknown case".into())),
     };
@@ -642,6 +668,12 @@ fn main() {
         report(case, catch(|| graph_case(n, code)), "graph processing with stock nodes (Sum, SumBuffers, Pass, Delay, boxed signal node, nested GraphNode, BoxedNode): 2nd/3rd call and first call on another graph of the same size", &|| graph_case(n, code).err().map(|e| e.1));
         guard::leave();
     });
+    // graph scale probes
+    for (fan_in, chain) in [(8usize, 0usize), (16, 1), (17, 0), (32, 2), (33, 0), (64, 3), (65, 0), (100, 0), (1, 64), (2, 200)] {
+        let case = json!({"sys":"wide_graph","fan_in":fan_in,"chain":chain});
+        guard::enter(&case.to_string());
+        report(case, catch(|| wide_graph_case(fan_in, chain)), "graph scale probes: a mixer with 8..100 inputs / chains of up to 200 nodes, repeated process calls", &|| wide_graph_case(fan_in, chain).err().map(|e| e.1));
+    }
     ctx.add_evals(au.brackets.load(Relaxed));
     let cat = au.catalogue.lock().unwrap();
     ctx.set("catalogue", json!(cat.iter().map(|(n, c)| json!({"operations": n, "brackets": c})).collect::<Vec<_>>()));
